@@ -310,11 +310,13 @@ def walkDown (ds : Array Float) (distTo : Float) : Nat → Nat
   | 0 => 0
   | pos + 1 => if distTo < ds[pos + 1]! then walkDown ds distTo pos else pos + 1
 
-/-- the snap logic shared by both sampled points: returns `(pos, index ≥ 0)` -/
-def psSelect (ds : Array Float) (distTo threshold : Float) : Nat × Bool :=
+/-- the snap logic shared by both sampled points: returns `(pos, index ≥ 0)`.  `fixed = true` is the
+repair proposed in notes/C17-fix-F1.diff: the snap-to-next test uses `<=`, so a sample that hits a
+vertex exactly (in particular the end of the path) is snapped even with `snapToVertex = 0`. -/
+def psSelect (fixed : Bool) (ds : Array Float) (distTo threshold : Float) : Nat × Bool :=
   let lb := lowerBound ds.toList distTo
   let pos := if lb = ds.size then ds.size - 1 else lb
-  if pos = 0 || ds[pos]! - distTo < threshold then (pos, true)
+  if pos = 0 || (if fixed then ds[pos]! - distTo <= threshold else ds[pos]! - distTo < threshold) then (pos, true)
   else
     let pos := walkDown ds distTo pos
     (pos, distTo - ds[pos]! < threshold)
@@ -330,7 +332,7 @@ def psAlong (dist : σ → σ → Float) (st : Array σ) (acc : Float) (posTemp 
     | some a, some b => psAlong dist st (acc + dist a b) (posTemp + 1) k
     | _, _ => none
 
-def psLoop (E : PsEnv σ) (u : Nat → Float) (rangeRatio snap : Float) (maxEmpty : Nat) :
+def psLoop (E : PsEnv σ) (fixed : Bool) (u : Nat → Float) (rangeRatio snap : Float) (maxEmpty : Nat) :
     (fuel i nochange : Nat) → List σ → Bool → Option (List σ × Bool)
   | 0, _, _, st, res => some (st, res)
   | fuel + 1, i, nochange, st, res =>
@@ -340,12 +342,12 @@ def psLoop (E : PsEnv σ) (u : Nat → Float) (rangeRatio snap : Float) (maxEmpt
       let threshold := back * snap
       let rd := rangeRatio * back
       let distTo0 := (back - 0.0) * u (2 * i) + 0.0
-      let (pos0, idx0) := psSelect ds distTo0 threshold
+      let (pos0, idx0) := psSelect fixed ds distTo0 threshold
       let lo1 := fmax 0.0 (distTo0 - rd)
       let hi1 := fmin (distTo0 + rd) back
       let distTo1 := (hi1 - lo1) * u (2 * i + 1) + lo1
-      let (pos1, idx1) := psSelect ds distTo1 threshold
-      if psSkip pos0 idx0 pos1 idx1 then psLoop E u rangeRatio snap maxEmpty fuel (i + 1) (nochange + 1) st res
+      let (pos1, idx1) := psSelect fixed ds distTo1 threshold
+      if psSkip pos0 idx0 pos1 idx1 then psLoop E fixed u rangeRatio snap maxEmpty fuel (i + 1) (nochange + 1) st res
       else
         let pt (pos : Nat) (idx : Bool) (distTo : Float) : Option σ :=
           if idx then st[pos]? else
@@ -367,26 +369,26 @@ def psLoop (E : PsEnv σ) (u : Nat → Float) (rangeRatio snap : Float) (maxEmpt
               | some along =>
                 let along := along + c1
                 if along < E.dist s0 s1 then
-                  psLoop E u rangeRatio snap maxEmpty fuel (i + 1) (nochange + 1) st res
+                  psLoop E fixed u rangeRatio snap maxEmpty fuel (i + 1) (nochange + 1) st res
                 else
                   match psSplice st pos0 idx0 s0 pos1 idx1 s1 with
-                  | some st' => psLoop E u rangeRatio snap maxEmpty fuel (i + 1) 1 st' true
+                  | some st' => psLoop E fixed u rangeRatio snap maxEmpty fuel (i + 1) 1 st' true
                   | none => none
               | none => none
             | _, _ => none
-          else psLoop E u rangeRatio snap maxEmpty fuel (i + 1) (nochange + 1) st res
+          else psLoop E fixed u rangeRatio snap maxEmpty fuel (i + 1) (nochange + 1) st res
         | _, _ => none
     else some (st, res)
 
 /-- `PathSimplifier::partialShortcutPath(path, maxSteps, maxEmptySteps, rangeRatio, snapToVertex)`
 with the default (path length) objective -/
-def partialShortcutPath (E : PsEnv σ) (u : Nat → Float) (maxSteps maxEmpty : Nat) (rangeRatio snap : Float)
+def partialShortcutPath (E : PsEnv σ) (fixed : Bool) (u : Nat → Float) (maxSteps maxEmpty : Nat) (rangeRatio snap : Float)
     (path : List σ) : Option (List σ × Bool) :=
   if path.length < 3 then some (path, false)
   else
     let maxSteps := if maxSteps = 0 then path.length else maxSteps
     let maxEmpty := if maxEmpty = 0 then path.length else maxEmpty
-    psLoop E u rangeRatio snap maxEmpty maxSteps 0 0 path false
+    psLoop E fixed u rangeRatio snap maxEmpty maxSteps 0 0 path false
 
 /-! ## densification (PathGeometric) -/
 
